@@ -55,6 +55,9 @@ EXPLANATION += " Added: (R15) Molekel centres; (R16) chunked sections (Molekel b
 TECHNIQUE += '; whole writer / reader pairs of the small record formats (XYZ columns, SDF, MOL2, PDB atom records, cube header, POSCAR) and the FCHK field routing, interpreted on model objects'
 EXPLANATION += ' Added: (R25) cube header writer / reader; (R26) POSCAR writer against the VASP header reader on a non-orthogonal cell; (R27, R28, R32) the FCHK basis block, WFN primitive lists and Molden [GTO] centres (C01-R17..R19); (R29) FCHK field routing: dump_one and load_one interpreted as a whole with the field I/O helpers replaced by a recorder -- which attribute goes to which label and back, with which factor, permutation and packing; (R30) pdb.dump_one against the record parser on atoms with occupancy / B-factor / residue number 0; (R31) SDF and MOL2 pairs on a molecule with bond types 1, 4, 9, 11. The frozen count of literal label pairs in R2 was dropped (a table-driven writer is not an anchor loss).'
 # --- end metadata batch 8
+# --- metadata added after the round-3 refactoring twins
+EXPLANATION += ' R5: the inverse tables are compared as values (any expression form). R6 is decided by the POSCAR writer / VASP header reader pair on a model cell with atoms [H, O, H]. R2: header keys given through `zip(keys, words)` are header keys.'
+# --- end metadata round-3 twins
 
 
 def _lev(a, b):
